@@ -235,3 +235,64 @@ package hashgraph
 // Snapshot: the part of a hashgraph (and of its store's ghost view) that a refused fast-forward must leave alone.
 //@ ghost type HGSnapshot struct { Store Store; Undetermined []string; PendingRounds *PendingRoundsCache; PendingSignatures *SigPool; Anchor *int; LastConsensusRound *int; FirstConsensusRound *int; LowerBound *int; Topo int; Loaded int; Events gmap[string, *Event]; Last gmap[string, string]; LastIdx gmap[string, int] }
 //@ ghost func (h *Hashgraph) Snapshot() HGSnapshot { return HGSnapshot{h.Store, h.UndeterminedEvents, h.PendingRounds, h.PendingSignatures, h.AnchorBlock, h.LastConsensusRound, h.FirstConsensusRound, h.roundLowerBound, h.topologicalIndex, h.PendingLoadedEvents, G_events(h.Store), G_last(h.Store), G_lastIdx(h.Store)} }
+
+// ------------------------------------------------------------------------------------------------
+// Block store view, signature pool, anchor (C09)
+//   blocks  index -> block          pset  round -> validator set effective at that round (total once any set exists)
+//@ ghost field Store blocks gmap[int, *Block]
+//@ ghost field Store pset gmap[int, *peers.PeerSet]
+//@ ghost field Store psetOK bool
+
+//@ iface func (s Store) GetBlock(index int) (*Block, error)
+//@   modifies nothing
+//@   ensures[hit] ret1 == nil ==> ret0 != nil && __in(index, G_blocks(s)) && ret0 == G_blocks(s)[index] && ret0.Body.Index == index && ret0.Signatures != nil
+//@   ensures[err] ret1 != nil ==> ret0 == nil
+
+//@ iface func (s Store) SetBlock(block *Block) error
+//@   requires block != nil
+//@   modifies G_blocks(s), G_fault(s)
+//@   ensures[set]   ret0 == nil ==> __eq(G_blocks(s), __upd(old(G_blocks(s)), block.Body.Index, block))
+//@   ensures[fail]  ret0 != nil ==> __eq(G_blocks(s), old(G_blocks(s))) && G_fault(s)
+//@   ensures[nofix] old(G_fault(s)) ==> G_fault(s)
+
+//@ iface func (s Store) GetPeerSet(round int) (*peers.PeerSet, error)
+//@   modifies nothing
+//@   ensures[ok]  (ret1 == nil) == G_psetOK(s)
+//@   ensures[set] ret1 == nil ==> ret0 != nil && ret0 == G_pset(s)[round] && ret0.WF()
+//@   ensures[err] ret1 != nil ==> ret0 == nil
+
+// ValidSigEntry: entry v of b's signature map is keyed canonically, belongs to ps, and verifies over b's body.
+//@ ghost func ValidSigEntry(b *Block, ps *peers.PeerSet, v string) bool { return __in(v, ps.ByPubKey) && v == common.Enc(common.KeyBytesOf(v)) && BlockSigOK(b, common.KeyBytesOf(v), b.Signatures[v]) }
+
+//@ func (b *Block) SetSignature(bs BlockSignature) error
+//@   requires b != nil && b.Signatures != nil
+//@   modifies b.Signatures[*]
+//@   ensures[set] ret0 == nil && __in(common.Enc(bs.Validator), b.Signatures) && b.Signatures[common.Enc(bs.Validator)] == bs.Signature
+//@   ensures[others] forall v string :: v != common.Enc(bs.Validator) ==> __in(v, b.Signatures) == __in(v, old(b.Signatures)) && b.Signatures[v] == old(b.Signatures[v])
+//@   ensures[len] len(b.Signatures) == old(len(b.Signatures)) + __ite(__in(common.Enc(bs.Validator), old(b.Signatures)), 0, 1)
+
+//@ func (h *Hashgraph) SetAnchorBlock(block *Block) error
+//@   requires h != nil && block != nil
+//@   modifies h.AnchorBlock, *h.AnchorBlock
+//@   ensures[ok]        (ret0 == nil) == G_psetOK(h.Store)
+//@   ensures[threshold] h.AnchorBlock != nil && (old(h.AnchorBlock) == nil || *h.AnchorBlock != old(*h.AnchorBlock)) ==> *h.AnchorBlock == block.Body.Index && 3*len(block.Signatures) > len(G_pset(h.Store)[block.Body.RoundReceived].ByPubKey) && (old(h.AnchorBlock) == nil || block.Body.Index > old(*h.AnchorBlock))
+//@   ensures[monotone]  old(h.AnchorBlock) != nil ==> h.AnchorBlock != nil && *h.AnchorBlock >= old(*h.AnchorBlock)
+//@   ensures[unset]     old(h.AnchorBlock) == nil && h.AnchorBlock != nil ==> *h.AnchorBlock == block.Body.Index
+
+// StoredBlocksSeparate: distinct stored blocks are distinct objects with their own signature maps
+// (NewBlock and the decoders allocate a fresh map per block).
+//@ ghost func StoredBlocksSeparate(s Store) bool { return forall i int, j int :: __in(i, G_blocks(s)) && __in(j, G_blocks(s)) && i != j && G_blocks(s)[i] != nil && G_blocks(s)[j] != nil ==> G_blocks(s)[i] != G_blocks(s)[j] && G_blocks(s)[i].Signatures != nil && !__eq(G_blocks(s)[i].Signatures, G_blocks(s)[j].Signatures) }
+
+//@ func (h *Hashgraph) ProcessSigPool() error
+//@   requires h != nil && h.PendingSignatures != nil && h.PendingSignatures.items != nil && StoredBlocksSeparate(h.Store)
+//@   modifies h.AnchorBlock, anyptr int, anymap map[string]string, h.PendingSignatures.items[*], G_blocks(h.Store), G_fault(h.Store)
+//@   ensures[recorded-only-if-valid] forall i int, v string :: __in(i, G_blocks(h.Store)) && G_blocks(h.Store)[i] != nil && __in(v, G_blocks(h.Store)[i].Signatures) && (!old(__in(v, G_blocks(h.Store)[i].Signatures)) || G_blocks(h.Store)[i].Signatures[v] != old(G_blocks(h.Store)[i].Signatures[v])) ==> ValidSigEntry(G_blocks(h.Store)[i], G_pset(h.Store)[G_blocks(h.Store)[i].Body.RoundReceived], v)
+//@   ensures[kept]      forall i int, v string :: __in(i, G_blocks(h.Store)) && G_blocks(h.Store)[i] != nil && old(__in(v, G_blocks(h.Store)[i].Signatures)) ==> __in(v, G_blocks(h.Store)[i].Signatures)
+//@   ensures[bodies]    __eq(G_blocks(h.Store), old(G_blocks(h.Store))) && (forall i int :: __in(i, G_blocks(h.Store)) && G_blocks(h.Store)[i] != nil ==> __eq(G_blocks(h.Store)[i].Body, old(G_blocks(h.Store)[i].Body)) && __eq(G_blocks(h.Store)[i].Signatures, old(G_blocks(h.Store)[i].Signatures)))
+//@   ensures[total]     !G_fault(h.Store) ==> ret0 == nil
+//@   ensures[anchor]    old(h.AnchorBlock) != nil ==> h.AnchorBlock != nil && *h.AnchorBlock >= old(*h.AnchorBlock)
+//@   loop 1 modifies h.AnchorBlock, anyptr int, anymap map[string]string, h.PendingSignatures.items[*], G_blocks(h.Store), G_fault(h.Store)
+//@   loop 1 invariant[valid]  forall i int, v string :: __in(i, G_blocks(h.Store)) && G_blocks(h.Store)[i] != nil && __in(v, G_blocks(h.Store)[i].Signatures) && (!old(__in(v, G_blocks(h.Store)[i].Signatures)) || G_blocks(h.Store)[i].Signatures[v] != old(G_blocks(h.Store)[i].Signatures[v])) ==> ValidSigEntry(G_blocks(h.Store)[i], G_pset(h.Store)[G_blocks(h.Store)[i].Body.RoundReceived], v)
+//@   loop 1 invariant[kept]   forall i int, v string :: __in(i, G_blocks(h.Store)) && G_blocks(h.Store)[i] != nil && old(__in(v, G_blocks(h.Store)[i].Signatures)) ==> __in(v, G_blocks(h.Store)[i].Signatures)
+//@   loop 1 invariant[bodies] __eq(G_blocks(h.Store), old(G_blocks(h.Store))) && (forall i int :: __in(i, G_blocks(h.Store)) && G_blocks(h.Store)[i] != nil ==> __eq(G_blocks(h.Store)[i].Body, old(G_blocks(h.Store)[i].Body)) && __eq(G_blocks(h.Store)[i].Signatures, old(G_blocks(h.Store)[i].Signatures)))
+//@   loop 1 invariant[anchor] (old(h.AnchorBlock) != nil ==> h.AnchorBlock != nil && *h.AnchorBlock >= old(*h.AnchorBlock)) && (old(G_fault(h.Store)) ==> G_fault(h.Store))
